@@ -450,6 +450,62 @@ def run(ctx):
         ctx.extra['correspondence'] = {'cases': len(keep), 'mismatches': mism}
         if mism:
             ctx.broken.append('correspondence:gen_params file / re-read vs model/Itp.v')
+        reader_cases(ctx, wd)
+
+
+def reader_cases(ctx, wd):
+    """molecule files as gen_params writes them for multi-residue (from_itp) input blocks: the atoms of a residue need not
+    be a contiguous run of [ atoms ] (e.g. virtual sites appended at the end carry the residue id and name of an earlier
+    residue). Both readers must recover one residue per (residue id, residue name) with all its atoms, joined where a bond
+    or constraint crosses."""
+    rng = ctx.rng
+    for k in range(ctx.n(16, 160)):
+        nres = rng.randint(2, 5)
+        r0 = rng.choice([1, 1, 3])
+        resnames = [rng.choice(['RA', 'RB', 'RC']) for _ in range(nres)]
+        atoms = []          # (resid, resname, name)
+        for i in range(nres):
+            for j in range(rng.randint(1, 3)):
+                atoms.append((r0 + i, resnames[i], f'{"ABC"[j]}{i}'))
+        trailing = []
+        if k % 2 == 0:
+            # trailing particles that belong to earlier residues
+            for i in rng.sample(range(nres), rng.randint(1, min(3, nres))):
+                trailing.append((r0 + i, resnames[i], f'V{i}'))
+        rows = atoms + trailing
+        idx_of = {(r, n): i + 1 for i, (r, _, n) in enumerate(rows)}
+        first = {r0 + i: idx_of[(r0 + i, f'A{i}')] for i in range(nres)}
+        bonds = []
+        for i in range(nres):
+            mine = [idx_of[(r, n)] for (r, _, n) in rows if r == r0 + i]
+            bonds += [(mine[0], m) for m in mine[1:]]
+        redges = [(i, i + 1) for i in range(nres - 1)] if rng.random() < 0.7 else [(rng.randrange(i), i) for i in range(1, nres)]
+        bonds += [(first[r0 + a], first[r0 + b]) for a, b in redges]
+        text = '[ moleculetype ]\nmol 1\n\n[ atoms ]\n'
+        text += ''.join(f'{i + 1} P1 {r} {rn} {n} {i + 1} 0.0 72.0\n' for i, (r, rn, n) in enumerate(rows))
+        text += '\n[ bonds ]\n' + ''.join(f'{a} {b} 1 0.35 1250\n' for a, b in bonds)
+        ctx.case(('reader', text), nontrivial=bool(trailing))
+        ctx.feature('reader_noncontiguous_residue' if trailing else 'reader_contiguous_residues')
+        rep = {'reader_itp': text}
+        try:
+            top_mol, itp_mol = reread(wd, text)
+        except BaseException as exc:  # noqa
+            ctx.violation('spec', f"a molecule file with {'non-' if trailing else ''}contiguous residues cannot be read: {type(exc).__name__}: {exc}", rep)
+            continue
+        want_nodes = sorted((r0 + i, resnames[i]) for i in range(nres))
+        want_edges = sorted((r0 + a, r0 + b) for a, b in redges)
+        want_atoms = {r0 + i: sorted(n for (r, _, n) in rows if r == r0 + i) for i in range(nres)}
+        for what, back in (('Topology.from_gmx_topfile', top_mol), ('MetaMolecule.from_itp', itp_mol)):
+            nodes, edges = res_graph(back)
+            got_atoms = {}
+            for n in back.nodes:
+                gph = back.nodes[n]['graph']
+                got_atoms.setdefault(int(back.nodes[n]['resid']), []).extend(gph.nodes[a]['atomname'] for a in gph.nodes)
+            got_atoms = {r: sorted(v) for r, v in got_atoms.items()}
+            if nodes != want_nodes or edges != want_edges or got_atoms != want_atoms:
+                ctx.violation('spec', f"{what}: residue graph read back with residues {nodes}, edges {edges}, atoms {got_atoms}; the file "
+                              f"holds residues {want_nodes} joined by {want_edges} with atoms {want_atoms}", rep)
+                break
 
 
 def search(ctx):
@@ -457,6 +513,11 @@ def search(ctx):
 
 
 def replay(ctx, data):
+    if 'reader_itp' in data:
+        with systems.Workdir() as wd:
+            top_mol, itp_mol = reread(wd, data['reader_itp'])
+            print('replay: from_gmx_topfile', res_graph(top_mol), ' from_itp', res_graph(itp_mol))
+        return 0
     print(json.dumps(data, indent=1, default=str)[:3000])
     if 'ff' in data and 'graph' in data:
         text = ff_text(data['ff'])
